@@ -82,6 +82,24 @@ type idxEnv struct {
 	slow    int32 // when set, the key function of index "k" sleeps
 	keyHit  int64
 	inited  bool // Init has been called on the store (it seeds only the first time)
+	// st2 is a second Store object over the same keys; conflictFor/conflictVal make the
+	// BeforeChange listener of st write through it (fault injection: the outer commit fails)
+	st2              *badgerstore.Store
+	conflictFor      string
+	conflictVal      interface{}
+	conflictInjected bool
+}
+
+// updateWithFailingCommit updates id to outer while another transaction (through st2)
+// writes inner between the outer transaction's read and its commit. Returns the error
+// of the outer Update and whether the injection took place.
+func (e *idxEnv) updateWithFailingCommit(id string, inner, outer interface{}) (error, bool) {
+	e.conflictFor, e.conflictVal, e.conflictInjected = id, inner, false
+	wt := e.st.Write(id)
+	err := wt.Update(outer)
+	wt.Close()
+	e.conflictFor = ""
+	return err, e.conflictInjected
 }
 
 func idxKey(field string, env *idxEnv) func(interface{}) []byte {
@@ -162,6 +180,19 @@ func newIdxEnv(typed bool, prefix string) (*idxEnv, error) {
 	if typed {
 		env.st.SetType(tItem{})
 	}
+	env.st2 = badgerstore.NewStore(db).SetPrefix(prefix)
+	if typed {
+		env.st2.SetType(tItem{})
+	}
+	env.st.BeforeChange(func(id string, before, after interface{}) error {
+		if env.conflictFor == id {
+			env.conflictFor = ""
+			wt2 := env.st2.Write(id)
+			env.conflictInjected = wt2.Update(env.conflictVal) == nil
+			wt2.Close()
+		}
+		return nil
+	})
 	// "prepared=1": the callback hands out one IndexQuery value per distinct query, built
 	// once and used again for every later call (an application caching its parsed queries)
 	prepared := map[string]*badgerstore.IndexQuery{}
